@@ -2,7 +2,7 @@
 
 R1 recording is observation-only; R2 run is next in a loop, eval is compile + run."""
 from ..core import callee_of, expr_walk, expr_str, short, runtime_targets, MissingAnchor
-from .. import awrite
+from .. import awrite, logfx
 from ..pathq import bool_branch, try_continue_block
 
 EXPLANATION = (
@@ -77,6 +77,10 @@ def run(rep, facts, tier):
         memo[c] = r
         return r
 
+    from .c02 import is_machine
+    FX = logfx.log_effects(fx, W, is_machine)
+    POPS = logfx.poppers(fx, W)
+    n_sites = sum(1 for fn in fx.fns for _, t in fx.fns[fn].calls() if callee_of(t) in FX)
     n_br = 0
     for fn in sorted(fx.fns):
         f = fx.fns[fn]
@@ -96,13 +100,13 @@ def run(rep, facts, tier):
                         c = callee_of(t)
                         if c is None:
                             bad.append('indirect call')
-                        elif c == ADD and side == 'recording':
+                        elif c in FX and side == 'recording':
                             pass
                         elif any(c.endswith(p) or p in c for p in PURE_IN_REGION):
                             pass
                         elif c in fx.fns and mutates(c):
                             bad.append('calls %s which mutates State' % short(c))
-                        elif c == ADD:
+                        elif c in FX:
                             bad.append('logs on the not-recording side')
                     elif t['k'] == 'return':
                         bad.append('returns early')
@@ -111,7 +115,9 @@ def run(rep, facts, tier):
                         'only logging / cloning on the %s side' % side if not bad else
                         'behaviour depends on recording: on the %s side %s %s' % (side, short(fn), '; '.join(sorted(set(bad))[:3])),
                         fn, f.at(bb))
-    rep.floor('C15.R1 is_recording() branches', n_br, 16)
+    # recording-dependent constructs: explicit branches plus calls of the self-guarding log helpers (a tree that drops the
+    # explicit `if is_recording()` around add_reverse_step has fewer branches and as many sites)
+    rep.floor('C15.R1 is_recording() branches + log sites', n_br + n_sites, 30)
 
     # readers / writers of reverse_log
     tr = {'state::State': {'reverse_log'}}
@@ -129,8 +135,16 @@ def run(rep, facts, tier):
         if reads:
             n_rd += 1
             ok = fn in LOG_READERS
+            why_ok = 'one of the owners of the reverse log'
+            if not ok and not mutates(fn):
+                rt = f.local_ty(0)
+                callers = fx.callers().get(fn, set())
+                if fn in FX and all(e['pure'] for e in FX[fn]) and rt == '()':
+                    ok, why_ok = True, 'log helper: appends an entry when recording, changes nothing else and returns nothing'
+                elif fn in POPS and callers and all(c in LOG_READERS for c in callers):
+                    ok, why_ok = True, 'pops the log for %s only' % ', '.join(short(c) for c in sorted(callers))
             rep.add('C15.R1', 'C15.R1:reverse_log-access:%s' % fn, ok,
-                    'one of the four owners of the reverse log' if ok else '%s reads or writes State.reverse_log: behaviour can depend on recording' % short(fn),
+                    why_ok if ok else '%s reads or writes State.reverse_log: behaviour can depend on recording' % short(fn),
                     fn, f.j['span'], nontrivial=False)
     rep.floor('C15.R1 reverse_log accessors', n_rd, 4)
 
